@@ -8,6 +8,7 @@ import (
 	"time"
 
 	"verif/harness/internal/core"
+	"verif/harness/internal/graph"
 	"verif/harness/internal/sched"
 )
 
@@ -15,6 +16,7 @@ type engine func(env *core.Env, rep *core.Report) *core.Result
 
 var engines = map[string]engine{
 	"C01": sched.Check, "C02": sched.Check, "C03": sched.Check, "C04": sched.Check,
+	"C05": graph.Check,
 }
 
 func main() {
